@@ -549,6 +549,12 @@ func genIGMP(c *Ctx) {
 		}
 	}
 	c.run("prog", "r=p.NewIGMPv3Report([]);$r.UnmarshalBinary(x2200000000000001"+hex.EncodeToString(r8)+");$r.UnmarshalBinary(x2200000000000001"+hex.EncodeToString(r12)+");!r")
+	// a record of exactly 65536 bytes (16382 sources): its 16-bit size is 0. A report announcing 65535 groups but
+	// holding only that record must fail fast on the missing second record; decoding must stay proportional to the
+	// input (a cursor that advances by the wrapped size would decode the same 64 KiB 65535 times)
+	big := cat([]byte{1, 0}, be16b(16382), grp, protoSeqBytes(4*16382, 7))
+	c.dec2("p.IGMPv3MembershipReport", cat([]byte{0x22, 0}, be16b(0), be16b(0), be16b(65535), big))
+	c.dec2("p.IGMPv3MembershipReport", cat([]byte{0x22, 0}, be16b(0), be16b(0), be16b(2), big, r8))
 }
 
 // ---- IPv6 extension headers -------------------------------------------------------------------------
